@@ -12,6 +12,16 @@ TABLE = {
  "C10-a": ("C10", "structural.py sanitize_names_general: generated-name set reset per duplicate group", "two duplicate groups whose counted names coincide ('KICK L' x2 and 'KICK -L' x2)"),
  "C12-a": ("C12", "transcoder.py: pass-through chosen before buffer sizes are computed, default 4096-byte block", "single little-endian stream with a frame size that does not divide 4096 (3 or 5 channels) and more than one block of data"),
  "C16-a": ("C16", "actions.py ls_action: routines dict without make_export_names", "an ls on the opened image object before the first export, and a name whose export name differs from the raw name"),
+ "C04-a": ("C04", "transcoder.py PassthroughTranscoder: ragged tail trimmed to a whole sample instead of a whole frame", "CDDA last track whose window ends 2-3 bytes past a stereo-frame boundary"),
+ "C06-a": ("C06", "structural.py combine_stereo_routine: taken names hoisted out of the loop", "two complete L/R pairs with one stem and different separators in one directory"),
+ "C09-a": ("C09", "alcohol/mdx.py: MDX payload size floored to a multiple of 2048", "MDX container, image size not a multiple of 2048, live sample data in the last partial sector"),
+ "C11-a": ("C11", "util/sector.py: parent seek skipped when a sector read starts where this stream's previous sector read ended", "a read ending exactly on a sector boundary, the next sector physically adjacent, and another stream of the image read in between"),
+ "C13-a": ("C13", "akai/image.py _load_partitions: ConstructError continues the scan instead of ending it", "a partition header whose size word is 0 (the Lazy skip rewinds to the header start): endless re-parse"),
+ "C14-a": ("C14", "akai/file_entry.py: next entry boundary computed from where the failed parse stopped", "start-sector field damaged to a value outside the SAT (failure after the whole entry was consumed) on an entry that is not the last"),
+ "C15-a": ("C15", "util/sector.py: short sector reads are returned instead of raising SectorReadError", "truncated image, non-monotonic chain, cut inside the physically later sector"),
+ "C17-a": ("C17", "cuesheet.py: next-track test peeks lines[0] without skipping blank lines", "a blank line directly before the TRACK line of a second or later track"),
+ "C18-a": ("C18", "midi.py: note decoding through a 256-entry table indexed by the A0-relative number", "note bytes below 21 (negative index wraps)"),
+ "C19-a": ("C19", "filters/common.py: CdXtract taps built as float32", "CdXtract preset fed in >= 2 blocks; a later-block sample whose exact value lies within 1e-3 of an integer"),
  "C20-a": ("C20", "akai/program.py _has_next_keygroup: seek skipped when the link equals first_address*(index+2)", "keygroups in standard 150-byte slots visited in permuted order starting in the first slot"),
 }
 
@@ -20,6 +30,9 @@ HISTORY = {
  "C12-a": "missed by the first version of C12 (real-block cases had no single 3/5-channel interleaved stream); caught after adding frame sizes that do not divide 4096",
  "C03-a": "missed by the first version of C03 (Cue.tla put INDEX 00 and INDEX 01 at the same time); caught after the pregap index got its own earlier time",
  "C20-a": "missed by the first version of C20 (keygroups at random gapped addresses only); caught after adding standard 150-byte slots visited in permuted order",
+ "C06-a": "missed by the first version of C06 (quick tier stopped at 3 siblings); caught after adding the 4-sibling pools to the quick tier",
+ "C09-a": "missed by the first version of C09 (no live data in the last partial 2048-byte sector); caught after adding images trimmed right behind their last used byte",
+ "C11-a": "missed by the first version of C11 (no contiguous side-by-side files, no reads aimed at sector boundaries, tiny behaviours not replayed); caught after adding contiguous shared-handle configurations whose TLC behaviours are replayed into the real classes, and boundary-aimed reads on real images",
  "C08-a": "caught marginally (3 behaviours) at first; a 5-sector scattered chain was added to the exhaustive depth-2 configurations",
 }
 
